@@ -517,7 +517,7 @@ def check(fx, rep, tier):
     # normal form of the stop condition (visit limit at ip+1, gas used > limit, killed) is C03 R03.1, re-evaluated
     from .. import core as _core3
 
-    _core3.import_rules(rep, fx, "C03", "R08.5", only_rules=("R03.1", "R03.3"), floor=8, what="stop-condition obligations (C03 R03.1) behind 'while the limits allow'")
+    _core3.import_rules(rep, fx, "C03", "R08.5", only_rules=("R03.1", "R03.3", "R03.4"), floor=8, what="stop-condition obligations (C03 R03.1) behind 'while the limits allow'")
     # the EVM ends a path whose stack would exceed 1024 items or underflow: the stack raises on every growing / shrinking operation
     _core3.import_rules(rep, fx, "C17", "R08.3", only_rules=("R17.6",), floor=2, what="stack-limit obligations (C17 R17.6) behind 'a failed instruction ends the path'", key_filter=lambda k: "stack-" in k)
     # jump targets computed from PC: PC pushes the offset of the PC instruction itself (shared with C07 R07.2)
